@@ -2058,6 +2058,38 @@ func genFacts() error {
 	}
 	sb.WriteString("].\n\n")
 
+	// stores through a parameter of tracked type, and every place such an object is passed on
+	stores, passes := map[string]bool{}, map[string]bool{}
+	for _, m := range out.methods {
+		for _, e := range m.events {
+			if strings.HasPrefix(m.name, "func:") && (e.kind == "W" || e.kind == "U" || e.kind == "A") {
+				// a package function whose parameter is the tracked object: its field stores
+				stores[m.pkg+"\t"+strings.TrimPrefix(m.name, "func:")+"\t"+m.typ+"."+e.name] = true
+			}
+			switch e.kind {
+			case "FP":
+				if i := strings.LastIndex(e.name, "#"); i >= 0 {
+					stores[m.pkg+"\t"+m.name+e.name[i:]+"\t"+e.name[:i]] = true
+				}
+			case "P", "PS":
+				passes[m.pkg+"\t"+e.name+"\t"+e.kind+"\t"+m.name] = true
+			case "PP":
+				if i := strings.LastIndex(e.name, "#"); i >= 0 {
+					passes[m.pkg+"\t"+e.name[:i]+"\t"+e.kind+"\t"+m.name] = true
+				}
+			}
+		}
+	}
+	sb.WriteString("(* (package, \"g#i\", \"T.f\"): function/method g stores field f of its parameter i (a tracked-type object) *)\n")
+	sb.WriteString("Definition param_stores : list (string * string * string) := [\n")
+	writeTuples(&sb, sortedKeys(stores), 3)
+	sb.WriteString("].\n\n")
+	sb.WriteString("(* (package, \"g#i\", kind, caller): a tracked-type object is passed as argument i of g;\n")
+	sb.WriteString("   kind P = created in the caller, PS = may be the caller's caller's object, PP = the caller's own parameter *)\n")
+	sb.WriteString("Definition param_passes : list (string * string * string * string) := [\n")
+	writeTuples(&sb, sortedKeys(passes), 4)
+	sb.WriteString("].\n\n")
+
 	// transitive sets over the same-receiver call graph (fixpoint)
 	type key struct{ pkg, typ, name string }
 	byKey := map[key]*methodFacts{}
